@@ -3,21 +3,64 @@
  * real core. Tracked attributes: Package0 name, PU0 info ("k"), NUMA0 local_memory and the derived
  * total_memory of NUMA0/Package0/Machine, topology info ("t").
  */
-#define SEED 1
-#include "vp_seed.h"
+#include "private/autogen/config.h"
+#include "hwloc.h"
+#include "private/private.h"
+#include "private/misc.h"
+#include <string.h>
+#include "vp_mini.h"
 #include "hwloc/diff.c"
+#ifdef VP_CBMC
+void hwloc_internal_distances_refresh(hwloc_topology_t t) { (void) t; }
+void hwloc_internal_memattrs_refresh(hwloc_topology_t t) { (void) t; }
+int hwloc_hide_errors(void) { return 2; }
+char *getenv(const char *n) { (void) n; return 0; }
+#endif
+/* the hand-linked topology: same role as the seeds, no discovery code executed */
+struct vp_seed { hwloc_obj_t pu[4], numa[2], pkg[2]; };
+static struct vp_seed vp_seed;
+static struct vp_mini vp_second;     /* B is a second, separately stored copy */
+static struct hwloc_topology *vp_seed_build(int id, unsigned long flags)
+{
+  (void) id; (void) flags;
+  struct hwloc_topology *t = vp_mini_build();
+  for (unsigned i = 0; i < 4; i++) vp_seed.pu[i] = vp_mini.pu[i];
+  for (unsigned i = 0; i < 2; i++) { vp_seed.numa[i] = vp_mini.numa[i]; vp_seed.pkg[i] = vp_mini.pkg[i]; }
+  return t;
+}
+#define vp_w vp_mw
 
 #ifndef NE
 #define NE 3
 #endif
 static const char *const pool[3] = { "a", "b", "c" };
+#ifndef SCRIPT
+#define SCRIPT 0
+#endif
+/* {target, attribute} per entry; targets: 0 PU0, 1 Package0, 2 NUMA0, 3 the topology, 4 nothing; attributes: 0 size 1 name 2 info 3 unknown */
+static const unsigned char script[][3][2] = {
+  { {0,2}, {0,2}, {0,2} },     /* 0: three edits of the same info */
+  { {2,0}, {1,1}, {3,2} },     /* 1: size, name, topology info */
+  { {1,1}, {1,1}, {2,0} },     /* 2: two edits of the same name, then a size */
+  { {2,0}, {2,0}, {4,2} },     /* 3: two edits of the same size, then a missing object */
+  { {3,2}, {0,0}, {1,3} },     /* 4: topology info, size on a non-NUMA object, unknown attribute type */
+  { {0,2}, {3,0}, {3,1} },     /* 5: info, then size/name addressed to the topology itself */
+};
 
 struct snap { char name; char info; char tinfo; uint64_t lm, tm_numa, tm_pkg, tm_root; };
+/* one info pair in a typed array (the library's own growth path goes through realloc, whose model yields an untyped
+ * byte array: pointers stored there defeat symex's points-to analysis and every later write fans out) */
+static void info1(struct hwloc_infos_s *infos, const char *n, const char *v)
+{
+  struct hwloc_info_s *a = malloc(8 * sizeof(struct hwloc_info_s)); VP_NONNULL(a);
+  a[0].name = strdup(n); a[0].value = strdup(v); VP_NONNULL(a[0].name); VP_NONNULL(a[0].value);
+  infos->array = a; infos->count = 1; infos->allocated = 8;
+}
 static void decorate(struct hwloc_topology *t, struct vp_seed *s)
 {
   s->pkg[0]->name = strdup("a");
-  hwloc__add_info(&s->pu[0]->infos, "k", "a");
-  hwloc__add_info(&t->infos, "t", "a");
+  info1(&s->pu[0]->infos, "k", "a");
+  info1(&t->infos, "t", "a");
 }
 static void take(struct hwloc_topology *t, struct vp_seed *s, struct snap *p)
 {
@@ -36,64 +79,87 @@ VP_HARNESS(h_apply)
   struct hwloc_topology *t = vp_seed_build(1, 0); struct vp_seed S = vp_seed;
   decorate(t, &S);
   struct snap pre, post, back; take(t, &S, &pre);
-  static union hwloc_topology_diff_u d[NE];
-  unsigned n = (unsigned) vp_in_range(1, NE);
+  /* each entry is its own typed allocation of the obj_attr variant (what diff_build and the XML loader allocate too) */
+  struct hwloc_topology_diff_obj_attr_s *e[NE];
+  for (unsigned i = 0; i < NE; i++) { e[i] = malloc(sizeof(struct hwloc_topology_diff_obj_attr_s)); VP_NONNULL(e[i]); }
+  unsigned n = NE;      /* the list length is a compile-time constant: the rollback loop walks the list with no NULL test, so a symbolic length makes symex follow NULL->next into an arbitrary object */
   for (unsigned i = 0; i < NE; i++) {
-    unsigned ty = (unsigned) vp_in_range(0, 2), tgt = (unsigned) vp_in_range(0, 4), at = (unsigned) vp_in_range(0, 3);
+    /* which object and which attribute each entry addresses is a compile-time script (a symbolic target makes every
+     * later pointer in the list a many-way choice: no verdict); everything else about the entries is symbolic */
+    unsigned ty = i + 1 == NE ? (unsigned) vp_in_range(0, 2) : 0, tgt = script[SCRIPT][i][0], at = script[SCRIPT][i][1];
     unsigned so = (unsigned) vp_in_range(0, 2), sn = (unsigned) vp_in_range(0, 2), sk = (unsigned) vp_in_bool();
-    d[i].obj_attr.type = ty == 0 ? HWLOC_TOPOLOGY_DIFF_OBJ_ATTR : ty == 1 ? HWLOC_TOPOLOGY_DIFF_TOO_COMPLEX : (hwloc_topology_diff_type_t) 99;
-    d[i].obj_attr.next = (i + 1 < n) ? &d[i + 1] : NULL;
+    e[i]->type = ty == 0 ? HWLOC_TOPOLOGY_DIFF_OBJ_ATTR : ty == 1 ? HWLOC_TOPOLOGY_DIFF_TOO_COMPLEX : (hwloc_topology_diff_type_t) 99;
+    e[i]->next = (i + 1 < NE && i + 1 < n) ? (hwloc_topology_diff_t) e[i + 1] : NULL;   /* the constant bound lets symex end the list */
     /* targets: PU0, Package0, NUMA0, the topology itself (depth == nb_levels), nothing */
-    d[i].obj_attr.obj_depth = tgt == 0 ? (int) S.pu[0]->depth : tgt == 1 ? (int) S.pkg[0]->depth : tgt == 2 ? HWLOC_TYPE_DEPTH_NUMANODE : tgt == 3 ? (int) t->nb_levels : 9;
-    d[i].obj_attr.obj_index = tgt == 4 ? 7 : 0;
+    e[i]->obj_depth = tgt == 0 ? (int) S.pu[0]->depth : tgt == 1 ? (int) S.pkg[0]->depth : tgt == 2 ? HWLOC_TYPE_DEPTH_NUMANODE : tgt == 3 ? (int) t->nb_levels : 9;
+    e[i]->obj_index = tgt == 4 ? 7 : 0;
     if (at == 0) {
-      d[i].obj_attr.diff.uint64.type = HWLOC_TOPOLOGY_DIFF_OBJ_ATTR_SIZE; d[i].obj_attr.diff.uint64.index = 0;
-      d[i].obj_attr.diff.uint64.oldvalue = vp_in64(); d[i].obj_attr.diff.uint64.newvalue = vp_in64();
+      e[i]->diff.generic.type = HWLOC_TOPOLOGY_DIFF_OBJ_ATTR_SIZE; e[i]->diff.uint64.index = 0;
+      e[i]->diff.uint64.oldvalue = vp_in64(); e[i]->diff.uint64.newvalue = vp_in64();
     } else {
-      d[i].obj_attr.diff.string.type = at == 1 ? HWLOC_TOPOLOGY_DIFF_OBJ_ATTR_NAME : at == 2 ? HWLOC_TOPOLOGY_DIFF_OBJ_ATTR_INFO : (hwloc_topology_diff_obj_attr_type_t) 99;
-      d[i].obj_attr.diff.string.name = (char *) (sk ? "k" : "t");
-      d[i].obj_attr.diff.string.oldvalue = (char *) pool[so]; d[i].obj_attr.diff.string.newvalue = (char *) pool[sn];
+      e[i]->diff.generic.type = at == 1 ? HWLOC_TOPOLOGY_DIFF_OBJ_ATTR_NAME : at == 2 ? HWLOC_TOPOLOGY_DIFF_OBJ_ATTR_INFO : (hwloc_topology_diff_obj_attr_type_t) 99;
+      e[i]->diff.string.name = (char *) (sk ? "k" : "t");
+      e[i]->diff.string.oldvalue = (char *) pool[so]; e[i]->diff.string.newvalue = (char *) pool[sn];
     }
   }
   unsigned long flags = vp_in64();
   VP_ASSUME(flags <= 3);
   errno = 0;
-  int r = hwloc_topology_diff_apply(t, &d[0], flags);
+  int r = hwloc_topology_diff_apply(t, (hwloc_topology_diff_t) e[0], flags);
   take(t, &S, &post);
   if (flags & ~HWLOC_TOPOLOGY_DIFF_APPLY_REVERSE) { VP_CHECK(r == -1 && errno == EINVAL && same(&pre, &post), "apply: unknown flags -> EINVAL, topology untouched"); }
   else if (r != 0) {
     VP_CHECK(r <= -1 && r >= -(int) n, "apply: a failure returns -N for the N-th entry");
     VP_CHECK(same(&pre, &post), "apply: when the N-th entry cannot be applied the topology is exactly as before the call");
   } else {
-    int r2 = hwloc_topology_diff_apply(t, &d[0], flags ^ HWLOC_TOPOLOGY_DIFF_APPLY_REVERSE);
+    int r2 = hwloc_topology_diff_apply(t, (hwloc_topology_diff_t) e[0], flags ^ HWLOC_TOPOLOGY_DIFF_APPLY_REVERSE);
     take(t, &S, &back);
     /* reversing a list is only an inverse when applied entry by entry backwards; the API applies it
      * forwards, which is an inverse for lists whose entries touch distinct attributes: assert that case */
     int distinct = 1;
-    for (unsigned i = 0; i < NE; i++) for (unsigned j = 0; j < i; j++) if (i < n && d[i].obj_attr.obj_depth == d[j].obj_attr.obj_depth && d[i].obj_attr.diff.generic.type == d[j].obj_attr.diff.generic.type) distinct = 0;
+    for (unsigned i = 0; i < NE; i++) for (unsigned j = 0; j < i; j++) if (i < n && e[i]->obj_depth == e[j]->obj_depth && e[i]->diff.generic.type == e[j]->diff.generic.type) distinct = 0;
     if (distinct) VP_CHECK(r2 == 0 && same(&pre, &back), "apply then apply with APPLY_REVERSE restores the topology");
   }
-  VP_WITNESS_IF(r == -3 && n == 3 && post.info == 'a' && d[0].obj_attr.diff.string.newvalue == pool[1] && d[1].obj_attr.diff.string.newvalue == pool[2] && d[0].obj_attr.obj_depth == (int) S.pu[0]->depth && d[1].obj_attr.obj_depth == (int) S.pu[0]->depth, "two chained edits of one info rolled back after a failing third entry");
-  VP_WITNESS_IF(r == 0 && n == 2 && post.lm != pre.lm && post.name == 'c', "a size and a name change applied");
+#if SCRIPT == 0
+  VP_WITNESS_IF(r == -3 && post.info == 'a' && e[0]->diff.string.newvalue == pool[1] && e[1]->diff.string.newvalue == pool[2], "two chained edits of one info rolled back after a failing third entry");
+#elif SCRIPT == 1
+  VP_WITNESS_IF(r == 0 && post.lm != pre.lm && post.name == 'c' && post.tinfo == 'b', "a size, a name and a topology info change applied");
+#elif SCRIPT == 2
+  VP_WITNESS_IF(r == 0 && post.name == 'c', "two chained renames and a size change applied");
+  VP_WITNESS_IF(r == -3 && pre.name == post.name, "two chained renames rolled back");
+#elif SCRIPT == 3
+  VP_WITNESS_IF(r == -3 && e[0]->diff.uint64.newvalue != pre.lm, "two chained size changes rolled back after an entry addressing a missing object");
+#else
+  VP_WITNESS_IF(r == -2, "the second entry rejected (size on a non-NUMA object / on the topology)");
+#endif
 }
 
+#ifndef EDITS
+#define EDITS 15
+#endif
+#ifndef NONREP
+#define NONREP 0
+#endif
 /* ---- build -> apply on a pair (A, B = edited copy) --------------------------------------------------------------- */
 VP_HARNESS(h_build)
 {
-  struct hwloc_topology *A = vp_seed_build(1, 0); struct vp_seed SA = vp_seed;
+  /* two independent hand-linked topologies: the builder works in one static area, so it is instantiated twice */
+  struct hwloc_topology *A = vp_mini_build_at(&vp_mini); struct vp_seed SA; for (unsigned i = 0; i < 4; i++) SA.pu[i] = vp_mini.pu[i]; for (unsigned i = 0; i < 2; i++) { SA.numa[i] = vp_mini.numa[i]; SA.pkg[i] = vp_mini.pkg[i]; }
   decorate(A, &SA);
-  struct hwloc_topology *B = vp_seed_build(1, 0); struct vp_seed SB = vp_seed;
+  struct hwloc_topology *B = vp_mini_build_at(&vp_second); struct vp_seed SB; for (unsigned i = 0; i < 4; i++) SB.pu[i] = vp_second.pu[i]; for (unsigned i = 0; i < 2; i++) { SB.numa[i] = vp_second.numa[i]; SB.pkg[i] = vp_second.pkg[i]; }
   decorate(B, &SB);
   /* representable edits */
-  unsigned e_name = (unsigned) vp_in_range(0, 2), e_info = (unsigned) vp_in_range(0, 2), e_tinfo = (unsigned) vp_in_range(0, 2);
-  uint64_t delta = vp_in64();
+  /* which of the four attributes differ is a compile-time mask (it fixes the shape of the built list); the new values are symbolic */
+  unsigned e_name = (EDITS & 1) ? (unsigned) vp_in_range(1, 2) : 0, e_info = (EDITS & 2) ? (unsigned) vp_in_range(1, 2) : 0, e_tinfo = (EDITS & 4) ? (unsigned) vp_in_range(1, 2) : 0;
+  uint64_t delta = (EDITS & 8) ? vp_in64() : 0;
+  VP_ASSUME(!(EDITS & 8) || delta != 0);
   if (e_name) SB.pkg[0]->name[0] = pool[e_name][0];
   if (e_info) SB.pu[0]->infos.array[0].value[0] = pool[e_info][0];
   if (e_tinfo) B->infos.array[B->infos.count - 1].value[0] = pool[e_tinfo][0];
   if (delta) { SB.numa[0]->attr->numanode.local_memory += delta; SB.numa[0]->total_memory += delta; SB.pkg[0]->total_memory += delta; B->levels[0][0]->total_memory += delta; }
   /* non-representable edits (at most one kind per query): 1 extra info, 2 name unset on B, 3 name unset on A, 4 cpuset changed, 5 os_index changed */
-  unsigned nonrep = (unsigned) vp_in_range(0, 5);
-  if (nonrep == 1) hwloc__add_info(&SB.pu[1]->infos, "x", "a");
+  unsigned nonrep = NONREP;
+  if (nonrep == 1) info1(&SB.pu[1]->infos, "x", "a");
   if (nonrep == 2) { SB.pkg[0]->name = NULL; e_name = 0; }
   if (nonrep == 3) { SA.pkg[1]->name = NULL; SB.pkg[1]->name = strdup("a"); }
   if (nonrep == 4) hwloc_bitmap_set(SB.pkg[1]->complete_cpuset, 9);
@@ -124,7 +190,20 @@ VP_HARNESS(h_build)
     struct snap a2; take(A, &SA, &a2);
     VP_CHECK(rr == 0 && a2.name == 'a' && a2.info == 'a' && a2.tinfo == 'a' && a2.lm == b.lm - delta && a2.tm_root == b.tm_root - delta, "APPLY_REVERSE restores A");
   }
-  VP_WITNESS_IF(r == 0 && cnt == 4, "four representable edits in one diff");
-  VP_WITNESS_IF(r == 1 && nonrep == 2, "name unset on one side");
-  VP_WITNESS_IF(r == 1 && nonrep == 4, "a set changed");
+#if NONREP == 0
+  VP_WITNESS_IF(r == 0 && cnt == __builtin_popcount(EDITS), "one entry per edited attribute");
+#else
+  VP_WITNESS_IF(r == 1, "a non-representable difference reported");
+#endif
+}
+
+/* native self-test of the hand-linked topology: the real checker must accept it */
+VP_HARNESS(h_mini_ok)
+{
+  struct hwloc_topology *t = vp_mini_build();
+  VP_CHECK(t->nb_levels == 3 && t->levels[2][3]->os_index == 5, "mini topology built");
+#ifndef VP_CBMC
+  hwloc_topology_check(t);
+#endif
+  VP_WITNESS("mini topology");
 }
